@@ -407,3 +407,8 @@ class PathSimSuite(Suite):
 
 SUITES = [B64Suite(), B64DecSuite(), PathSimSuite(), FileE2E()]
 
+
+def extra_obligations(tier):
+    """the translated part of the model: regenerated from the current source and re-proved equal to what the theorems use"""
+    from vlib import gen
+    return gen.obligations(only=["gen_write_bytes_constants_are_the_model"])
